@@ -238,7 +238,24 @@ func fromCoords3(cs [][][]geom.Coord) [][][]C {
 }
 
 // Observe reads a real geometry back into a model through the public API only.
-func Observe(t geom.T) (*G, error) {
+func Observe(t geom.T) (g *G, err error) {
+	defer func() {
+		if r := recover(); r != nil {
+			g, err = nil, fmt.Errorf("accessor panicked while observing a %T (layout %v): %v", t, layoutOf(t), r)
+		}
+	}()
+	return observe(t)
+}
+
+func layoutOf(t geom.T) (l geom.Layout) {
+	defer func() { _ = recover() }()
+	if t == nil {
+		return geom.NoLayout
+	}
+	return t.Layout()
+}
+
+func observe(t geom.T) (*G, error) {
 	switch t := t.(type) {
 	case *geom.Point:
 		g := &G{Kind: Point, Layout: t.Layout(), SRID: t.SRID()}
@@ -261,7 +278,7 @@ func Observe(t geom.T) (*G, error) {
 	case *geom.GeometryCollection:
 		g := &G{Kind: Collection, Layout: t.Layout(), SRID: t.SRID()}
 		for _, k := range t.Geoms() {
-			kg, err := Observe(k)
+			kg, err := observe(k)
 			if err != nil {
 				return nil, err
 			}
